@@ -204,8 +204,8 @@ def _check_mono(run, mod, Q, cfg, ys):
                     # nothing to compare the first answer with; the guard is
                     # skipped exactly while the tracker is still None
                     nn = [p for (l, p) in tn.pred if p.kind == "test" and (
-                        (l == "T" and unparse(p.ast) in (
-                            "%s is not None" % tracker, tracker)) or
+                        (l == "T" and unparse(p.ast) ==
+                         "%s is not None" % tracker) or
                         (l == "F" and unparse(p.ast) ==
                          "%s is None" % tracker))]
                     if nn:
